@@ -144,6 +144,7 @@ func ReplayChild(args []string) {
 		mu.Unlock()
 	}
 	EventSink = func(label string, ev []byte) { write(map[string]any{"label": label, "ev": json.RawMessage(ev)}) }
+	StepSink = func(label string, raw []byte) { write(map[string]any{"label": label, "begin": json.RawMessage(raw)}) }
 	for _, j := range jobs {
 		write(map[string]any{"label": j.Label, "start": true})
 		_, err := Replay(j.Mode, j.Lic, j.Storage, j.Walk, j.Label, rand.New(rand.NewSource(j.Seed)))
@@ -194,7 +195,7 @@ func runChildren(c *core.Ctx, jobs []childJob, ceilingMiB int) []*core.Trace {
 		data, _ := os.ReadFile(out)
 		os.RemoveAll(dir)
 		finished := map[string]bool{}
-		var current string
+		var current, serving string
 		machinery := ""
 		for _, line := range strings.Split(string(data), "\n") {
 			if line == "" {
@@ -206,11 +207,14 @@ func runChildren(c *core.Ctx, jobs []childJob, ceilingMiB int) []*core.Trace {
 				Start bool            `json:"start"`
 				Done  bool            `json:"done"`
 				Error string          `json:"error"`
+				Begin json.RawMessage `json:"begin"`
 			}
 			if json.Unmarshal([]byte(line), &m) != nil {
 				continue
 			}
 			switch {
+			case m.Begin != nil:
+				serving = string(m.Begin)
 			case m.Start:
 				current = m.Label
 				byLabel[m.Label] = &core.Trace{Label: m.Label}
@@ -249,7 +253,7 @@ func runChildren(c *core.Ctx, jobs []childJob, ceilingMiB int) []*core.Trace {
 			if len(tail) > 1500 {
 				tail = tail[:700] + " ... " + tail[len(tail)-700:]
 			}
-			byLabel[current].Events = append(byLabel[current].Events, core.Ev(map[string]any{"e": "broker-died", "why": why, "stderr": tail}))
+			byLabel[current].Events = append(byLabel[current].Events, core.Ev(map[string]any{"e": "broker-died", "why": why, "serving": serving, "stderr": tail}))
 			c.Add("broker_process_deaths", 1)
 		} else if werr != nil && len(next) == len(remaining) {
 			core.Fatalf("replay child failed before its first job: %v\n%s", werr, stderr.String())
